@@ -35,7 +35,14 @@ PRIORS = {
     "DB2.S1": [("DB2", ["S1"])],
     "DB1,DB2.S1": [("DB1", []), ("DB2", ["S1"])],
     "DB2.S1,DB1": [("DB2", ["S1"]), ("DB1", [])],
+    # databases named like a schema DuckDB knows in the current catalog (a one-part `USE x` / `SET schema='x'` would pick the schema),
+    # and a database named like a schema of another database
+    "MAIN": [("MAIN", [])],
+    "MAIN/RAW": [("MAIN", ["RAW"])],
+    "PG_CATALOG": [("PG_CATALOG", [])],
+    "S1,DB1.S1": [("S1", []), ("DB1", ["S1"])],
 }
+KEY_BUILTIN_DB = "C14/auto-create-db-named-like-builtin-schema"
 
 
 def _probe(conn) -> str:
@@ -62,7 +69,11 @@ def _content(obs, c: str, s: str, deep: bool = True):
         rows = cur.execute(f"select * from {c}.{s}.T").fetchall()
     except Exception:  # noqa: BLE001
         return 0, None
-    if not deep:   # initial-state sanity only: the rows
+    if c.upper() in ("MAIN", "PG_CATALOG", "INFORMATION_SCHEMA"):
+        # DESCRIBE TABLE / information_schema views of a database named like a built-in schema are ambiguous for DuckDB whatever connect
+        # does (not C14's business): only the rows can be observed there
+        deep = False
+    if not deep:   # the rows only
         return (T_CONTENT, None) if rows == T_EXPECTED[0] else (99, f"{c}.{s}.T rows {rows}")
     try:
         cur.execute(f"use database {c}")
@@ -97,6 +108,40 @@ def _listing(obs, d: str | None, deep: bool = True):
     files = sorted(f[:-3] for f in os.listdir(d) if f.endswith(".db")) if d else []
     att = sorted((c, bool(d) and os.path.exists(os.path.join(d, c + ".db")), sorted(ss)) for c, ss in cats.items())
     return att, files, notes
+
+
+def _where_it_lands(obs, conn, db, sc, dbset: bool, scset: bool) -> list[str]:
+    """the engine-level context of a freshly connected session: current_database()/current_schema(), and where an unqualified
+    CREATE SCHEMA / CREATE TABLE lands.  Returns the list of discrepancies with what (db, sc, dbset, scset) demand.  Mutates the
+    catalog, so it runs after everything else has been observed."""
+    bad = []
+    if not (scset and sc == "PG_CATALOG"):
+        # (with pg_catalog as current schema DuckDB's own current_database() macro recurses: not observable there)
+        try:
+            cd, cs = conn.cursor().execute("select current_database(), current_schema()").fetchall()[0]
+        except Exception as e:  # noqa: BLE001
+            return [f"select current_database(), current_schema() raised {type(e).__name__}"]
+        if dbset and (cd or "").upper() != db:
+            bad.append(f"current_database() is {cd!r}, required {db!r}")
+        if dbset and (cs or "").upper() != (sc if scset else "MAIN"):
+            bad.append(f"current_schema() is {cs!r}, required {(sc if scset else 'main')!r}")
+    if not dbset:
+        return bad
+    try:
+        conn.cursor().execute("create schema c14_probe_s")
+        got = sorted(r[0] for r in obs.cursor().execute(
+            "select catalog_name from memory.information_schema.schemata where upper(schema_name) = 'C14_PROBE_S'").fetchall())
+        if [g.upper() for g in got] != [db]:
+            bad.append(f"an unqualified CREATE SCHEMA landed in catalog(s) {got}, required [{db!r}]")
+    except Exception as e:  # noqa: BLE001
+        bad.append(f"unqualified CREATE SCHEMA raised {type(e).__name__}: {str(e)[:80]}")
+    if scset and sc not in ("INFORMATION_SCHEMA", "PG_CATALOG"):
+        try:
+            conn.cursor().execute("create table c14_probe_t (x int)")
+            obs.cursor().execute(f"select x from {db}.{sc}.c14_probe_t").fetchall()
+        except Exception as e:  # noqa: BLE001
+            bad.append(f"an unqualified CREATE TABLE did not land in {db}.{sc}: {type(e).__name__}: {str(e)[:80]}")
+    return bad
 
 
 def _session_state(conn):
@@ -143,12 +188,14 @@ def _real(cfg) -> dict:
                     kw["database"] = dbarg
                 if scarg is not None:
                     kw["schema"] = scarg
+                last = None
                 try:
                     c = snowflake.connector.connect(**kw)
                     p = _probe(c)
                     # 90105 / 90106 are the context guards; once past them the missing table gives 2003 (2043 under pg_catalog)
                     flags = {"90105": "0,0", "90106": "1,0", "2003": "1,1", "2043": "1,1"}.get(p, "probe:" + p)
                     outs.append(f"ok,{enc_opt(c.database)},{enc_opt(c.schema)},{flags}")
+                    last = (c, flags)
                 except Exception as e:  # noqa: BLE001
                     outs.append("binder" if type(e).__name__ == "BinderException" else f"X:{type(e).__name__}:{getattr(e, 'errno', '')}")
             final = _listing(obs, dbp)
@@ -159,7 +206,12 @@ def _real(cfg) -> dict:
                     other_data = other.cursor().execute("select x from T").fetchall()
                 except Exception as e:  # noqa: BLE001
                     other_data = f"X:{type(e).__name__}"
-        return {"init": init, "outs": outs, "final": final, "other_before": other_before, "other_after": other_after, "other_data": other_data}
+            lands = []
+            if last is not None and last[1] in ("0,0", "1,0", "1,1"):
+                c, flags = last
+                lands = _where_it_lands(obs, c, c.database, c.schema, flags != "0,0", flags == "1,1")
+        return {"init": init, "outs": outs, "final": final, "other_before": other_before, "other_after": other_after, "other_data": other_data,
+                "lands": lands}
     except Exception as e:  # noqa: BLE001
         return {"harness_error": f"{type(e).__name__}: {e}"[:300]}
     finally:
@@ -247,6 +299,19 @@ def _check(chk, cfg, real, reply) -> None:
     for o in real["outs"][-1:]:
         if o.startswith("ok,"):
             chk.count("context:" + {"0,0": "none", "1,0": "database", "1,1": "database+schema"}.get(",".join(o.split(",")[3:]), "?"))
+    key = reply.get("finding", "-")
+    if key != "-":
+        # region of a known finding: the exception class of the failing bootstrap is not pinned (Binder / InvalidInput)
+        canon = ["bootstrap" if (m == "bootstrap" and (o == "binder" or o.startswith("X:InvalidInputException"))) else o
+                 for o, m in zip(real["outs"], impl_outs)] + real["outs"][len(impl_outs):]
+        chk.count("region:" + key)
+        if (canon, real_world) != (spec_outs, spec_world):
+            if (canon, real_world) == (impl_outs, impl_world):
+                chk.finding(key, f"{_describe(cfg)}: {real['outs']} — connect attaches the database and then raises from its bootstrap", case)
+            else:
+                chk.violation(f"{_describe(cfg)}: in the region of {key} the real behaviour {real['outs']} {real_world} is neither the specified one "
+                              f"nor the known failure {impl_outs} {impl_world}", case, broken="C14_conforms_partial / finding " + key)
+            return
     bad = None
     if real["outs"] != spec_outs:
         i = next(j for j in range(len(spec_outs)) if j >= len(real["outs"]) or real["outs"][j] != spec_outs[j])
@@ -256,12 +321,14 @@ def _check(chk, cfg, real, reply) -> None:
                f"as created) / db files are {real_world}, required {spec_world}" + ("; " + "; ".join(real["final"][2]) if real["final"][2] else ""))
     elif real["other_after"] != real["other_before"]:
         bad = f"another session's (database, schema, probe) changed from {real['other_before']} to {real['other_after']}"
+    elif real.get("lands"):
+        bad = "the session's engine-level context is wrong: " + "; ".join(real["lands"])
     elif real["other_data"] not in (None, [(1,)]):
         bad = f"another session's unqualified `select x from T` now gives {real['other_data']}, required [(1,)]"
     if bad:
         like = " [behaves like the code before the repair C14/schema-without-db]" if (real["outs"], real_world) == (ship_outs, ship_world) and \
             (ship_outs, ship_world) != (impl_outs, impl_world) else ""
-        chk.violation(f"{_describe(cfg)}: {bad}{like}", case, broken="C14_conforms/C14_frame (correspondence with Fs.Connect.connect)")
+        chk.violation(f"{_describe(cfg)}: {bad}{like}", case, broken="C14_conforms_partial/C14_frame (correspondence with Fs.Connect.connect)")
         return
     if (real["outs"], real_world) != (impl_outs, impl_world):
         chk.violation(f"{_describe(cfg)}: real behaviour satisfies the specification but differs from the model of the code: "
@@ -280,6 +347,17 @@ def _configs(chk):
                                           ["AXB/SXT", "A_B/SXT"], ["first"]))
     adversarial += list(itertools.product(["db1", "DB1"], ["s1", "S1"], [True, False], [True, False], ["memory", "fresh", "existing"],
                                           ["DB2.S1", "DB1,DB2.S1", "DB2.S1,DB1"], ["first"]))
+    # database names that coincide with schema names DuckDB knows; connecting to such an existing database (database-only branch,
+    # missing schema, existing schema) …
+    adversarial += list(itertools.product(["main", "MAIN"], [None, "missing", "raw"], [True, False], [True, False], ["memory"],
+                                          ["MAIN", "MAIN/RAW"], ["first"]))
+    adversarial += list(itertools.product(["Main"], [None, "missing", "raw"], [True, False], [True, False], ["fresh"], ["MAIN/RAW"], ["first"]))
+    adversarial += list(itertools.product(["Pg_Catalog"], [None, "s1"], [True, False], [True, False], ["memory"], ["PG_CATALOG"], ["first"]))
+    adversarial += list(itertools.product(["s1"], [None, "s1"], [True, False], [True, False], ["memory"], ["S1,DB1.S1"], ["first"]))
+    # … and having connect create / re-attach it (region of the known finding when create_database_on_connect is on)
+    adversarial += list(itertools.product(["main", "PG_Catalog"], [None, "s1"], [True, False], [True, False], ["memory", "fresh"], ["nothing"],
+                                          ["second"]))
+    adversarial += list(itertools.product(["main"], [None, "raw"], [True, False], [True], ["existing"], ["MAIN/RAW"], ["first"]))
     adversarial += list(itertools.product(["axb"], [None, "sxt"], [True, False], [True, False], ["memory", "fresh", "existing"], ["A_B/S_T"], ["first"]))
     return product, adversarial
 
@@ -384,7 +462,7 @@ def _check_seq(chk, seq, real, replies) -> None:
             bad = f"left the catalogs (name, file-backed, schemas with content) / db files {real_world}, required {spec_world}"
         if bad:
             chk.violation(f"{_describe_seq(seq, k + 1, real)}: connect #{k + 1}, with the catalogs being {r['pre'][0]} just before it, {bad}", case,
-                          broken="C14_conforms/C14_frame for a repeat connect (correspondence with Fs.Connect.connect)")
+                          broken="C14_conforms_partial/C14_frame for a repeat connect (correspondence with Fs.Connect.connect)")
             return
         if ([r["out"]], real_world) != (impl_outs, impl_world):
             chk.violation(f"{_describe_seq(seq, k + 1, real)}: connect #{k + 1} satisfies the specification but differs from the model of the code: "
@@ -416,7 +494,7 @@ def run(chk) -> None:
     chk.rule = ("complete product database{absent,lower,UPPER,Mixed} × schema{absent,lower,UPPER,information_schema} × create_database × "
                 "create_schema × storage{memory,fresh db_path,db_path with earlier session's files} × prior{nothing,db,db+schema+table} × "
                 f"{{first,second connect}} = {len(product)} configurations, plus {len(adversarial)} adversarial ones (empty strings, built-in "
-                "schema names, unrelated database, names with `_` beside look-alike existing names, another database holding a schema named like the requested one), plus sequences connect → DDL from another "
+                "schema names, unrelated database, names with `_` beside look-alike existing names, another database holding a schema named like the requested one, databases named MAIN / PG_CATALOG / like another database's schema), plus sequences connect → DDL from another "
                 "session (DROP/CREATE SCHEMA, CREATE DATABASE, CREATE/DROP TABLE) → connect to the same target again (2-3 connects, any letter case), "
                 "each connect compared with the model started from the catalog observed just before it.  non-trivial = distinct configuration with a database argument")
     cfgs = product + adversarial
